@@ -339,6 +339,9 @@ func init() {
 		if !ls.writer {
 			panic(targetPanic{iface{fr.i.runtimeErrorString, "sync: unlock of unlocked mutex"}})
 		}
+		if fr.i.sch != nil {
+			fr.i.sch.hbRelease(ls)
+		}
 		ls.writer = false
 		if fr.i.sch != nil {
 			fr.i.sch.yield(nil)
@@ -361,6 +364,9 @@ func init() {
 		ls := fr.i.lockOf(cell(args[0]))
 		if !ls.writer {
 			panic(targetPanic{iface{fr.i.runtimeErrorString, "sync: Unlock of unlocked RWMutex"}})
+		}
+		if fr.i.sch != nil {
+			fr.i.sch.hbRelease(ls)
 		}
 		ls.writer = false
 		if fr.i.sch != nil {
@@ -385,6 +391,9 @@ func init() {
 		if ls.readers == 0 {
 			panic(targetPanic{iface{fr.i.runtimeErrorString, "sync: RUnlock of unlocked RWMutex"}})
 		}
+		if fr.i.sch != nil {
+			fr.i.sch.hbRelease(readerSide{ls})
+		}
 		ls.readers--
 		if fr.i.sch != nil {
 			fr.i.sch.yield(nil)
@@ -402,6 +411,9 @@ func init() {
 				s.onces[k] = 1
 				call(in, fr, 0, args[1], nil)
 				s.onces[k] = 2
+				s.hbRelease(k)
+			} else {
+				s.hbAcquire(k)
 			}
 			return nil
 		}
